@@ -622,7 +622,7 @@ let run_case (w : string list) : string =
   | ["yaw"; mode; b; qs] -> run_yaw mode (bytes_of_hex b) (if qs = "-" then [] else String.split_on_char ',' qs)
   | ["traj"; mode; b; qs] -> run_traj mode (bytes_of_hex b) (if qs = "-" then [] else String.split_on_char ',' qs)
   | ["rth"; b; pts; times] -> run_rth (bytes_of_hex b) (ints_of_csv pts) (if times = "-" then [] else String.split_on_char ',' times)
-  | ["routes"; k; b] ->
+  | "routes" :: k :: b :: _ ->
     let kd = (match k with "traj" -> M.KTraj | "light" -> M.KLight | "yaw" -> M.KYaw | "rth" -> M.KRth | _ -> failwith "kind") in
     let bytes = bytes_of_hex b in
     (match M.load kd M.Fd bytes, M.load kd M.Mem bytes with
